@@ -223,13 +223,16 @@ def hexByte (b : UInt8) : String :=
 
 /-- `step <form index> <328-byte machine state, hex>`: one step of the instruction semantics on the given registers and vector
     lanes (11 general registers little-endian, X0..X2, Y1..Y6); answer: the resulting state in the same format and `ZF CF signed-less`. -/
-def runStep (args : List String) : String :=
+def runStep (jump : Bool) (args : List String) : String :=
   match args with
   | idx :: hex :: _ =>
     let bytes := (parseHex hex).toArray
-    match Gen.Asm.stepForms[idx.toNat!]? with
+    let form? : Option (Asm.Instr × Option Asm.Instr) :=
+      if jump then (Gen.Asm.jumpForms[idx.toNat!]?).map (fun p => (p.2.1, some p.2.2))
+      else (Gen.Asm.stepForms[idx.toNat!]?).map (fun p => (p.2, none))
+    match form? with
     | none => "bad-form"
-    | some (_, ins) =>
+    | some (ins, jmp?) =>
       if bytes.size != 328 then "bad-state" else
       let le (o : Nat) : Nat := (List.range 8).foldr (fun k acc => acc * 256 + bytes[o + k]!.toNat) 0
       let regIdx : Asm.Reg → Nat
@@ -245,6 +248,9 @@ def runStep (args : List String) : String :=
       match Asm.step st ins with
       | none => "none"
       | some (s', _) =>
+        match jmp? with
+        | some j => (match Asm.step s' j with | some (_, some _) => "1" | _ => "0")
+        | none =>
         let regs := [Asm.Reg.AX, .BX, .CX, .DX, .SI, .DI, .R8, .R10, .R11, .R12, .R13]
         let rs := regs.foldl (fun acc q => acc ++ String.join ((List.range 8).map (fun k => hexByte (UInt8.ofNat (s'.r q / 256 ^ k % 256))))) ""
         let xs := [Asm.XReg.X0, .X1, .X2].foldl (fun acc q => acc ++ String.join ((List.range 16).map (fun j => hexByte (s'.x q j)))) ""
@@ -261,7 +267,8 @@ partial def loop (h : IO.FS.Stream) (out : IO.FS.Stream) : IO Unit := do
   match toks with
   | "flush" :: _ => out.flush
   | "asm" :: args => out.putStrLn (runAsm args)
-  | "step" :: args => out.putStrLn (runStep args)
+  | "step" :: args => out.putStrLn (runStep false args)
+  | "jump" :: args => out.putStrLn (runStep true args)
   | fn :: cfg :: args =>
     let (a, s) := run fn (mkCfg cfg) args
     out.putStrLn (a ++ "\t" ++ s ++ "\t" ++ runM fn (mkCfg cfg) args)
